@@ -8,6 +8,8 @@ pub mod wire;
 pub mod engine;
 pub mod stack;
 pub mod routing;
+pub mod sched;
+pub mod conc;
 
 /// byte-spec: `-` (empty) or `+`-joined tokens: `h<hex>` literal, `p<len>x<seed>` pattern
 /// (byte i = (seed + 31*i) mod 256), `z<len>` zeros.
